@@ -712,7 +712,40 @@ ModuleAnswered(s, e) ==
   IF e.name = "Call" /\ e.ok /\ e.svc = OSVC THEN {ReqId(CtxId(s.seq + 1), 1, 0)} ELSE {}
 
 GhostInit == [ans |-> EmptyF, exp |-> EmptyF, batchAt |-> EmptyF, modified |-> EmptyF,
-              intr |-> EmptyF, cbn |-> EmptyF, expd |-> EmptyF, f4 |-> EmptyF]
+              intr |-> EmptyF, cbn |-> EmptyF, expd |-> EmptyF, f4 |-> EmptyF,
+              born |-> EmptyF, open |-> EmptyF, lastEnd |-> 0, dueAt |-> EmptyF,
+              pausedH |-> EmptyF, cmd |-> EmptyF, wd |-> EmptyF]
+
+(* History ghosts of the audit (DESIGN 13.12, lead): what HAPPENED, never read from the
+   module's own queues / indexes / flags.
+     born[c]     the accepted Call / ModCall that created context c: who called, in which
+                 block, running or paused, the settings AS THE MESSAGE GAVE THEM
+     open[r]     request r as it was first seen (fee, provider, expiration height ...)
+     lastEnd     height of the last end-block observed
+     dueAt[c][n] the height at which batch n of c expires = the height it was issued at +
+                 the timeout in force then
+     pausedH[c]  the last accepted Pause / Start on c was a Pause (or c was created paused)
+     cmd[c]      some Pause or Kill on c was accepted
+     wd[o]       the withdraw address owner o last set with an accepted SetWithdraw *)
+NewCtx(s, t) == DOMAIN t.ctx \ DOMAIN s.ctx
+CallAccepted(e) == e.name \in {"Call", "ModCall"} /\ e.ok
+BornRec(s, e) ==
+  [who |-> e.who, h |-> s.h, run |-> ~(e.name = "ModCall" /\ e.paused0),
+   mod |-> IF e.name = "ModCall" THEN MOD ELSE "",
+   osvc |-> (e.name = "Call" /\ e.svc = OSVC),
+   repeated |-> e.repeated,
+   freq |-> IF e.repeated THEN (IF e.freq = 0 THEN e.timeout ELSE e.freq) ELSE 0,
+   total |-> IF e.repeated THEN e.total ELSE 0,
+   timeout |-> e.timeout]
+OpenRec(t, r) ==
+  [ctx |-> t.req[r].ctx, batch |-> t.req[r].batch, provider |-> t.req[r].provider,
+   fee |-> t.req[r].fee, fdenom |-> t.req[r].fdenom, expH |-> t.req[r].expH]
+PauseNames == {"Pause", "ModPause"}
+StartNames == {"Start", "ModStart"}
+KillNames == {"Kill", "ModKill"}
+(* the requests that, by the history alone, still await their outcome: seen created, never
+   answered, the end-block of their expiration height not yet observed *)
+LiveH(g) == {r \in DOMAIN g.open : Get(g.ans, r, 0) = 0 /\ g.open[r].expH > g.lastEnd}
 
 CountCbs(e, id, n) == Cardinality({i \in DOMAIN e.cbs : e.cbs[i].ctx = id /\ e.cbs[i].batch = n})
 
@@ -744,7 +777,26 @@ GhostStep(g, s, e, t) ==
                IF Completes(s, t, id)
                THEN bump(Get(g.expd, id, EmptyF), id, s.ctx[id].batch, 1)
                ELSE Get(g.expd, id, EmptyF)],
-   f4 |-> [d \in DenomsOf(t) |-> Amt(g.f4, d) + F4Step(s, e, t, d)]]
+   f4 |-> [d \in DenomsOf(t) |-> Amt(g.f4, d) + F4Step(s, e, t, d)],
+   born |-> LET new == IF CallAccepted(e) THEN NewCtx(s, t) \ DOMAIN g.born ELSE {} IN
+            [id \in DOMAIN g.born \cup new |-> IF id \in DOMAIN g.born THEN g.born[id] ELSE BornRec(s, e)],
+   open |-> LET new == DOMAIN t.req \ DOMAIN g.open IN
+            [r \in DOMAIN g.open \cup new |-> IF r \in DOMAIN g.open THEN g.open[r] ELSE OpenRec(t, r)],
+   lastEnd |-> IF e.name = "EndBlock" THEN s.h ELSE g.lastEnd,
+   dueAt |-> LET iss == {id \in DOMAIN t.ctx : Issued(s, t, id)} IN
+             [id \in DOMAIN g.dueAt \cup iss |->
+                IF id \in iss
+                THEN Put(Get(g.dueAt, id, EmptyF), t.ctx[id].batch, s.h + s.ctx[id].timeout)
+                ELSE g.dueAt[id]],
+   pausedH |-> LET new == IF CallAccepted(e) THEN NewCtx(s, t) \ DOMAIN g.pausedH ELSE {}
+                   hit == IF e.name \in PauseNames \cup StartNames /\ e.ok THEN {e.ctx} ELSE {} IN
+               [id \in DOMAIN g.pausedH \cup new \cup hit |->
+                  IF id \in hit THEN e.name \in PauseNames
+                  ELSE IF id \in DOMAIN g.pausedH THEN g.pausedH[id]
+                  ELSE ~BornRec(s, e).run],
+   cmd |-> LET hit == IF e.name \in PauseNames \cup KillNames /\ e.ok THEN {e.ctx} ELSE {} IN
+           [id \in DOMAIN g.cmd \cup hit |-> TRUE],
+   wd |-> IF e.name = "SetWithdraw" /\ e.ok THEN Put(g.wd, e.who, e.to) ELSE g.wd]
 
 -----------------------------------------------------------------------------
 (***************************************************************************)
@@ -1008,6 +1060,123 @@ C08_Funds(s, e, t) ==
         /\ t.ctx[id].bstate = "completed"
         /\ \A r \in NewReqs(s, t) : t.req[r].ctx # id
         /\ id \notin DOMAIN t.expH /\ id \notin DOMAIN t.newH
+
+-----------------------------------------------------------------------------
+(***************************************************************************)
+(* History-based twins (audit, DESIGN 13.12 "lead"): the clauses above read *)
+(* their antecedents / domains / expected values from the module's own     *)
+(* bookkeeping (active markers, queue entries, state flags, the stored     *)
+(* consumer, the stored withdraw address, the request records); a defect   *)
+(* that drops, duplicates or overwrites such an entry makes them vacuous   *)
+(* or lets both sides be equally wrong.  The twins below take the same     *)
+(* sentences' antecedents from the history ghosts (accepted events, their  *)
+(* arguments, heights) and from bank balances.  g0 = ghosts before the     *)
+(* step, g = after.                                                        *)
+(***************************************************************************)
+
+(* C07: "the fees recorded on the requests issued": a request record never changes after
+   it was issued (the fee charged to the consumer at creation - C07_Charge - is the fee
+   that later goes to the provider or back to the consumer) *)
+C07_RequestRecords(t, g) ==
+  \A r \in DOMAIN t.req \cap DOMAIN g.open : OpenRec(t, r) = g.open[r]
+
+(* C07: what a withdrawal takes out of the request escrow arrives at the address the
+   owner last SET (accepted SetWithdraw events), else at the owner - not at whatever the
+   module's withdraw-address store holds *)
+C07_WithdrawTo(s, e, t, g0) ==
+  (e.name \in {"Withdraw", "ModWithdrawAll"} /\ e.ok) =>
+    LET to == Get(g0.wd, e.who, e.who) IN
+    /\ to \in DOMAIN t.bal
+    /\ \A d \in DenomsOf(t) : (to # REQ) => DeltaD(s, t, to, d) = 0 - DeltaD(s, t, REQ, d)
+    /\ OthersSame(s, t, {<<REQ, d>> : d \in DenomsOf(t)} \cup {<<to, d>> : d \in DenomsOf(t)})
+
+(* C08: exactly one outcome, judged from the history: the requests awaiting a response are
+   exactly those seen created, not answered, whose expiration height has not passed; an
+   accepted answer is for such a request and comes from the provider it was addressed to
+   when it was created *)
+C08_OneOutcomeH(s, e, t, g0, g) ==
+  /\ t.active = LiveH(g)
+  /\ (e.name = "Respond" /\ e.ok) =>
+       /\ e.req \in LiveH(g0)
+       /\ e.who = g0.open[e.req].provider
+  \* requests appear only as part of a batch that is being issued (and carry its number)
+  /\ \A r \in NewReqs(s, t) \ ModuleAnswered(s, e) :
+       /\ e.name = "EndBlock"
+       /\ LET c == t.req[r].ctx IN
+          /\ c \in DOMAIN s.ctx /\ c \in DOMAIN t.ctx
+          /\ t.ctx[c].batch = s.ctx[c].batch + 1 /\ t.req[r].batch = t.ctx[c].batch
+
+(* C08: "only by its consumer" - the consumer is whoever made the accepted call that
+   created the context, and stays so *)
+C08_AuthorityH(e, t, g0, g) ==
+  /\ (e.name \in {"Pause", "Start", "Kill", "Update"} /\ e.ok) =>
+       /\ e.ctx \in DOMAIN g0.born
+       /\ e.who = g0.born[e.ctx].who /\ g0.born[e.ctx].mod = ""
+  /\ (e.name \in {"ModPause", "ModStart", "ModKill", "ModUpdate"} /\ e.ok) =>
+       /\ e.ctx \in DOMAIN g0.born
+       /\ g0.born[e.ctx].mod # "" => e.who = g0.born[e.ctx].who
+  /\ \A id \in DOMAIN t.ctx :
+       /\ id \in DOMAIN g.born
+       /\ t.ctx[id].consumer = g.born[id].who /\ t.ctx[id].module = g.born[id].mod
+
+(* C08: schedule, from the history *)
+C08_ScheduleH(s, e, t, g0, g) ==
+  \* issues nothing while paused: after an accepted Pause (or a creation in the paused state)
+  \* and before the next accepted Start no batch is issued and no request created
+  /\ \A id \in DOMAIN s.ctx \cap DOMAIN t.ctx :
+       Get(g0.pausedH, id, FALSE) =>
+         /\ t.ctx[id].batch = s.ctx[id].batch
+         /\ \A r \in NewReqs(s, t) : t.req[r].ctx # id
+  \* the context of a call accepted in this block, running and not paused / killed since,
+  \* issues its first batch when the block ends (unless the consumer cannot pay)
+  /\ (e.name = "EndBlock") =>
+       \A id \in DOMAIN g0.born :
+         LET b == g0.born[id] IN
+         (b.h = s.h /\ b.run /\ ~b.osvc /\ ~Get(g0.cmd, id, FALSE)) =>
+           /\ id \in DOMAIN t.ctx
+           /\ (t.ctx[id].batch = 1 \/ t.ctx[id].state = "paused")
+  \* "its frequency", "its total": while the settings are not modified they are the ones
+  \* the accepted call gave
+  /\ \A id \in DOMAIN t.ctx \cap DOMAIN g.born :
+       LET b == g.born[id]
+           c == t.ctx[id] IN
+       (~b.osvc /\ ~Get(g.modified, id, FALSE)) =>
+         /\ c.repeated = b.repeated /\ c.freq = b.freq /\ c.total = b.total /\ c.timeout = b.timeout
+
+(* C08 / C13: every issued batch is over when the end-block of (issue height + timeout)
+   has run - whatever the expiration queue says: a one-shot context is removed then, a
+   module callback has fired exactly once for the batch by then; and a batch is closed by
+   the end-blocker only at that height *)
+C08_BatchDue(s, e, t, g0, g) ==
+  (e.name = "EndBlock") =>
+    /\ \A id \in DOMAIN g0.dueAt : \A n \in DOMAIN g0.dueAt[id] :
+         (g0.dueAt[id][n] = s.h) =>
+           /\ \/ id \notin DOMAIN t.ctx
+              \/ t.ctx[id].batch > n
+              \/ t.ctx[id].bstate = "completed"
+           /\ (id \in DOMAIN g0.born /\ ~g0.born[id].repeated /\ ~g0.born[id].osvc) => id \notin DOMAIN t.ctx
+           /\ (id \in DOMAIN g0.born /\ g0.born[id].mod # "") => Get(Get(g.cbn, id, EmptyF), n, 0) = 1
+    /\ \A id \in DOMAIN s.ctx :
+         Completes(s, t, id) =>
+           /\ id \in DOMAIN g0.dueAt /\ s.ctx[id].batch \in DOMAIN g0.dueAt[id]
+           /\ g0.dueAt[id][s.ctx[id].batch] = s.h
+
+(* C13: queue entries, from the history: every issued batch whose due height has not been
+   processed has its expiration entry exactly there, every expiration entry belongs to such
+   a batch; the context of an accepted running call has its new-batch entry at the height of
+   its block until that block ends *)
+C13_QueueH(t, g) ==
+  /\ \A id \in DOMAIN g.dueAt \cap DOMAIN t.ctx :
+       LET n == t.ctx[id].batch IN
+       (n \in DOMAIN g.dueAt[id] /\ g.dueAt[id][n] > g.lastEnd) => <<g.dueAt[id][n], id>> \in t.expQ
+  /\ \A q \in t.expQ :
+       /\ q[2] \in DOMAIN g.dueAt /\ q[1] > g.lastEnd
+       /\ \E n \in DOMAIN g.dueAt[q[2]] :
+            /\ g.dueAt[q[2]][n] = q[1]
+            /\ (q[2] \in DOMAIN t.ctx) => t.ctx[q[2]].batch = n
+  /\ \A id \in DOMAIN g.born :
+       (g.born[id].run /\ g.born[id].h > g.lastEnd) => <<g.born[id].h, id>> \in t.newQ
+  /\ \A q \in t.newQ : q[2] \in DOMAIN g.born /\ q[1] > g.lastEnd
 
 -----------------------------------------------------------------------------
 (* C13 for the service queues *)
@@ -1471,6 +1640,13 @@ Act_C08_Authority == [][C08_Authority(st, ev')]_vars
 Act_C08_Callback == [][C08_Callback(st, ev', st', gh')]_vars
 Act_C08_Funds == [][C08_Funds(st, ev', st')]_vars
 Act_C13_OnceOnTime == [][C13_OnceOnTime(st, ev', st', gh')]_vars
+Act_C07_RequestRecords == [][C07_RequestRecords(st', gh')]_vars
+Act_C07_WithdrawTo == [][C07_WithdrawTo(st, ev', st', gh)]_vars
+Act_C08_OneOutcomeH == [][C08_OneOutcomeH(st, ev', st', gh, gh')]_vars
+Act_C08_AuthorityH == [][C08_AuthorityH(ev', st', gh, gh')]_vars
+Act_C08_ScheduleH == [][C08_ScheduleH(st, ev', st', gh, gh')]_vars
+Act_C08_BatchDue == [][C08_BatchDue(st, ev', st', gh, gh')]_vars
+Act_C13_QueueH == [][C13_QueueH(st', gh')]_vars
 
 Act_X08_ModuleCall == [][X08_ModuleCall(st, ev', st')]_vars
 Act_X07_RefundTiming == [][X07_RefundTiming(st, ev', st')]_vars
